@@ -353,12 +353,11 @@ Section Ops.
           | (w2, Ok rs2) =>
             match first_caps rs2 with
             | Some (RCaps _ c2 _) => (upd_dev w2 (fun d => update_capabilities d (cdict_merge c c2)), None)
-            | Some _ => (w2, Some EAttr)      (* merge() on a plain Response: AttributeError *)
-            | None => (upd_dev w2 (fun d => update_capabilities d c), None)
+            | _ => (upd_dev w2 (fun d => update_capabilities d c), None)   (* isinstance check (fix 8aa45f2) *)
             end
           end
         else (upd_dev w1 (fun d => update_capabilities d c), None)
-      | Some _ => (w1, Some EAttr)            (* .additional_capabilities on a plain Response *)
+      | Some _ => (w1, None)                  (* not a CapabilitiesResponse: treated as no response (fix 8aa45f2) *)
       end
     end.
 End Ops.
